@@ -377,7 +377,7 @@ class Channel(BaseChannel):
         if not self.consumer_tags:
             return
         if not self.is_closed:
-            for tag in self.consumer_tags:
+            for tag in list(self.consumer_tags):
                 self.basic.cancel(tag)
         self.remove_consumer_tag()
 
